@@ -83,11 +83,19 @@ def corpus_cases(prop):
     return out
 
 
+# per-property oracles stated on the implementation's log alone (prop -> function(log text) -> message or None)
+LOG_ORACLES = {}
+
+
 def failing(r, prop, mon_keys, san_kinds):
     """does this case show the implementation violating the property? returns (sig, msg) or None"""
     for k in mon_keys:
         if k in r.mon:
             return (f"{prop}:mon:{norm_sig(r.mon[k])}", f"monitor {k} rejects the implementation's log: {r.mon[k]}")
+    if prop in LOG_ORACLES:
+        m = LOG_ORACLES[prop](r.log)
+        if m:
+            return (f"{prop}:log:{norm_sig(m)}", m)
     if r.san and san_kind(r.san) in san_kinds:
         return (f"{prop}:san:{san_kind(r.san)}", f"sanitizer: {r.san}")
     return None
@@ -191,6 +199,8 @@ def run_property(prop, tier, seed, proof, families, mon_keys, san_kinds, nontriv
                     dist[w[0] + ("-" + w[1] if w[0] == "API" and len(w) > 1 else "")] += 1
                 if w and w[0] == "CFG":
                     dist[l] += 1
+                if w and w[0] == "FDFLAGS" and len(w) > 4:
+                    dist["FDFLAGS-" + w[4]] += 1
             if nontrivial(r.log):
                 res.nontrivial.add(hashlib.sha1(r.log.encode()).hexdigest()[:16])
             f = failing(r, prop, mon_keys, san_kinds)
